@@ -1,8 +1,42 @@
 package main
 
 import (
+	"os"
+	"runtime"
+	"strconv"
+	"strings"
+	"time"
+
 	"verifharness/vlib"
 )
+
+// loadFactor: 1-minute load average per CPU at process start, clamped to [1, 4]. The wall-clock guards that decide
+// "hang" for calls that do real work (tree handlers, whole cases) are multiplied by it: on a machine running 10x more
+// runnable threads than cores an honest call can take many seconds. 1 on a machine that is not overloaded.
+var loadFactor = func() float64 {
+	b, err := os.ReadFile("/proc/loadavg")
+	if err != nil {
+		return 1
+	}
+	f := strings.Fields(string(b))
+	if len(f) == 0 {
+		return 1
+	}
+	l, err := strconv.ParseFloat(f[0], 64)
+	if err != nil {
+		return 1
+	}
+	x := l / float64(runtime.NumCPU())
+	if x < 1 {
+		return 1
+	}
+	if x > 4 {
+		return 4
+	}
+	return x
+}()
+
+func scaled(d time.Duration) time.Duration { return time.Duration(float64(d) * loadFactor) }
 
 func minInt(a, b int) int {
 	if a < b {
